@@ -622,6 +622,17 @@ func TestVerifC17(t *testing.T) {
 			case 2: // the non-opener's cap is never consulted
 				p.maxCfgR = 1 + int64(c.rng.Intn(100))
 			}
+			if c.rng.Intn(8) == 0 {
+				// cap boundary: the other side's ideal is the larger
+				// one, within 30% of the opener's, and EXACTLY the
+				// opener's cap, so the opener's accepting proposal
+				// equals its max fee
+				p.idealI = c.ideal(100)
+				p.idealR = p.idealI + p.idealI*int64(1+c.rng.Intn(3))/10
+				p.maxCfgI = p.idealR + int64(c.rng.Intn(3)) - 1
+				p.maxCfgR = 0
+				hi = p.idealR
+			}
 			if p.maxCfgI < 0 {
 				p.maxCfgI = 0
 			}
